@@ -1290,7 +1290,7 @@ def _family(name, tier='quick'):
         out = flat_cases((200,), elif_n=60 if tier == 'quick' else 150)
         if tier == 'quick':
             out += flat_cases((500,), linear + ('if-distinct',), placements=('module', 'imported'))
-            out += flat_cases((1000, 3000), linear, placements=('module',))
+            out += flat_cases((1000, 3000), tuple(k for k in linear if k != 'mixed'), placements=('module',))
         else:
             out += flat_cases((500,))
             out += flat_cases((1000,), linear + mid[:4], placements=('module', 'function', 'imported'))
